@@ -101,5 +101,17 @@ PROPS["C14"] = {
     "replay_help": "case.kind tsd: start slot, slots (has, 64-bit pattern), with_time, encoder mode; correspondence_code 1 = model bytes differ from the encoder's bytes or the model cannot decode them; oracle_code 1 = the real decoder returned something else than what was encoded (sequential or slot-addressed); kinds delta / fixed-offset / varint analogous; bitmap / snappy are direct round trips (oracle_code 900)",
 }
 
+PROPS["C15"] = {
+    "harness": "c15",
+    "props_files": ["C15/Props.v"],
+    "n": {"quick": 150, "thorough": 2500},
+    "level_text": "Theorems (Coq, no axioms): whatever add/stream-write sequence is fed to the builder the accepted keys are strictly ascending and a rejected key changes nothing; lookup by rank + offset table returns exactly the added bytes (None for absent keys); iteration yields exactly the accepted entries in order; min/max/count are those of the accepted entries; merging any number of sorted inputs by repeatedly popping an input with a minimal head yields a permutation of all entries sorted by key; Load consults every file holding the key. Tied to the code with real table files (footer position, offset-table bytes via the C14 model, lookups, iteration, metadata), real merged iterators (exact output order against a concrete container/heap model) and Snapshot.Load on a real family.",
+    "level_note": "Trusted: the roaring key bitmap is abstract (Contains/Rank by their specification; keys are compared through their rank order, so the 65536 container boundaries are exercised on the Go side only); the heap algorithm is executable in the model and compared for exact order, but the theorem is about the abstract 'pop a minimal head' relation; values larger than a few dozen bytes (up to 2 MiB) are verified directly by the harness.",
+    "rule": "builder histories of 1-25 add/stream operations over dense runs, sparse keys, keys around multiples of 65536 and up to 2^31, with injected equal/smaller keys (18 %), values 0-24 bytes (stream writes in 0-2 chunks); probes = every key +-1 and 0/65535/65536; merges of 1-8 real tables sharing keys; Load over 1-5 flushed files with overlapping key ranges; non-trivial = keys crossing a 65536 boundary or a rejected key (tables), >= 2 inputs sharing a key (merges), key held by >= 2 files (loads); distinct = different JSON",
+    "trusted": ["modelled abstractly: lindb/roaring (key set with Contains/Rank/iteration), mmap of the table file, bufio stream writer"],
+    "assumptions": ["a stream write is the atomic triple Prepare, Write*, Commit (an uncommitted stream write followed by Add is outside intended use)", "table size < 4 GiB (uint32 positions)"],
+    "replay_help": "case.kind table: ops with real keys; in the Coq case keys are replaced by their rank among all keys of the case; correspondence_code 1 = accepted flags, footer position, offset-table bytes or lookups differ from the model; oracle_code 1 = lookups/iteration/min/max/count differ from the entries accepted by the strictly-ascending rule; kind merge: inputs and the real merged output; kind load: files and key",
+}
+
 for _pid in PROPS:
     NOT_APPLICABLE.pop(_pid, None)
